@@ -155,11 +155,11 @@ class C10(scen.WorldProp):
         def make(s):
             class B(Band):
                 def tick(self2, s2, t):
-                    bot = getattr(s2, "bot", None)
-                    if bot is not None:   # the band rings whatever is currently not Wheatley's
+                    tw = getattr(s2, "tower", None)
+                    if tw is not None:   # the band rings whatever is currently not Wheatley's
                         from wheatley.bell import Bell
                         self2.bells = {b for b in range(1, s2.size + 1)
-                                       if not bot._tower.is_bell_assigned_to(Bell.from_number(b), None)}
+                                       if not tw.is_bell_assigned_to(Bell.from_number(b), None)}
                     super().tick(s2, t)
             return [B(s, humans, rng, rng.choice([[0.0], [0.0, 0.05], [0.0, 0.02, 0.5], [0.3]]), rng.choice([0, 0, 1]), 0.0)]
         return make
